@@ -6,7 +6,10 @@ MCTemplates == <<
   [pts |-> << <<1201, 847, 0>>, <<0, 0, 0>>, <<-1250, 881, 0>> >>, atom |-> <<20, -927, 1209>>],
   [pts |-> << <<0, 0, 0>>, <<3000, 0, 0>>, <<2900, 200, 0>> >>, atom |-> <<500, 1000, -700>>],
   [pts |-> << <<0, 0, 0>>, <<3000, 0, 0>>, <<-2900, 250, 0>> >>, atom |-> <<-400, 900, 1100>>],
-  [pts |-> << <<1201, 847, 0>>, <<0, 0, 0>>, <<-1250, 881, 0>>, <<20, -927, 1209>> >>, atom |-> <<833, -1507, 1171>>] >>
+  [pts |-> << <<1201, 847, 0>>, <<0, 0, 0>>, <<-1250, 881, 0>>, <<20, -927, 1209>> >>, atom |-> <<833, -1507, 1171>>],
+  \* reference atoms given in their own principal-axis frame (the fit's 4x4 matrix is diagonal for the identity and for half turns):
+  [pts |-> << <<800, 0, 600>>, <<0, 0, 0>>, <<-800, 0, 600>> >>, atom |-> <<0, 900, -500>>],           \* water-like, two-fold axis along z
+  [pts |-> << <<600, 600, 600>>, <<600, -600, -600>>, <<-600, 600, -600>>, <<-600, -600, 600>> >>, atom |-> <<300, 500, -200>>] >>   \* tetrahedron
 MCQRange == -2..2
 MCQSmall == -1..1
 MCQBig == -3..3
